@@ -245,9 +245,14 @@ func c02Native(it ap.Item, out []byte, rep *Report, idx int) {
 func runC02(seed int64, n int, tier string, outDir string) (*Report, error) {
 	rep := &Report{Rule: "(plus a directed block: language maps with repeated / colliding tags in five positions, and hostile documents with a repeated language tag decoded and re-serialised) structured values of all 14 struct kinds (value and pointer form, nesting depth <= 2, each field set with probability 1/3) with every string-typed property (ids, IRIs, types, media types, language tags, units, key material, natural-language text) drawn half of the time from a hostile pool (quotes, backslashes, control bytes, invalid UTF-8, JSON fragments, injection attempts); each output is compared with the model encoder inside Coq by length and checksum (two Adler sums + a polynomial hash), and natively checked with encoding/json: validity, duplicate members at every depth, every member a declared term, JSON kind per Go type, exact string decoding; non-trivial = value has at least 3 members and one hostile string; distinct by canonical term"}
 	g := NewGen(seed, "C02")
-	hdr := "From AP.Model Require Import Prelude Vocab Json JsonLeaf JsonTables JsonEnc.\nFrom AP.Gen Require Import JsonW.\n" +
+	// every case is first judged by well_typed (Model/EncTyped.v): the rendering of harness/val.go must produce a term in the
+	// domain of the definedness theorem C02_enc_defined (each field declared by the struct's layout, holding a value of the
+	// constructor of its Go type, once) - a case that is not well-typed counts as a mismatch; marshal_root = the method called on
+	// the value itself (differs from the item-position encoder on the nil IRI "-" and the nil IRI list only)
+	hdr := "From AP.Model Require Import Prelude Vocab Layout Json JsonLeaf JsonTables JsonEnc EncTyped.\nFrom AP.Gen Require Import Layout JsonW.\n" +
 		"Definition ok (c : item * (N * N)) : bool := let '(i, o) := c in\n" +
-		"  match marshal_json jw_tables i with Some b => (N.of_nat (length b) =? fst o)%N && (fnv64 b =? snd o)%N | None => false end.\n"
+		"  well_typed layout_of layout_endpoints i &&\n" +
+		"  match marshal_root jw_tables i with Some b => (N.of_nat (length b) =? fst o)%N && (fnv64 b =? snd o)%N | None => false end.\n"
 	cw := NewCaseWriter(outDir, "Cases_C02", hdr, "item * (N * N)")
 	cw.SetChunk(25, 1)
 	opts := DefaultOpts()
@@ -450,6 +455,48 @@ func runC02(seed int64, n int, tier string, outDir string) (*Report, error) {
 				c02Native(it, out, rep, 200000+k)
 				k++
 			}
+		}
+	}
+	// directed (b54): well-typed values of the definedness theorem (C02_enc_defined: every item, whatever an item position
+	// holds) that the structured generator does not build - roots that are no struct (IRI, IRI list, item list, value and
+	// pointer form, nil and empty), typed nil pointers and the nil interface as list members, lists in lists three deep,
+	// pointers to lists and to IRIs as members, IRI lists with hostile members in item positions and inside lists - each
+	// compared with the model like every other case and judged natively
+	{
+		a := ap.IRI("https://example.com/a")
+		pa := ap.IRI(`a"b\"c`)
+		hostileIris := ap.IRIs{"https://example.com/a", `a"b`, "line\nfeed", "bad\xffutf8", `http://x/","type":"Delete`, ""}
+		inner := ap.ItemCollection{a, ap.ItemCollection{ap.ItemCollection{&ap.Object{ID: `x"y`}, nil}, (*ap.Activity)(nil)}, hostileIris}
+		members := []ap.Item{nil, (*ap.Object)(nil), (*ap.Link)(nil), (*ap.OrderedCollectionPage)(nil), &pa, &ap.ItemCollection{}, &ap.ItemCollection{a, nil},
+			&hostileIris, ap.IRIs(nil), ap.ItemCollection(nil), inner, &inner, ap.IRI("-"), ap.Object{}, &ap.Actor{Endpoints: &ap.Endpoints{}}}
+		var vals []ap.Item
+		vals = append(vals, a, pa, &pa, ap.IRI(""), ap.IRI("-"), hostileIris, &hostileIris, ap.IRIs{}, ap.IRIs(nil), ap.IRIs{""},
+			ap.ItemCollection(nil), ap.ItemCollection{}, &ap.ItemCollection{}, inner, &inner, ap.ItemCollection{nil}, ap.ItemCollection{(*ap.Object)(nil), nil},
+			ap.ItemCollection{ap.ItemCollection{ap.ItemCollection{}}}, ap.ItemCollection{hostileIris}, ap.ItemCollection{a, a})
+		for _, m := range members {
+			vals = append(vals,
+				ap.ItemCollection{m}, ap.ItemCollection{a, m}, ap.ItemCollection{m, a, m},
+				&ap.Object{ID: "https://example.com/o", Type: ap.NoteType, Attachment: m, Tag: ap.ItemCollection{m, a}, To: ap.ItemCollection{m}},
+				&ap.Activity{Type: ap.CreateType, Object: m, Actor: ap.ItemCollection{m, m}},
+				&ap.Actor{Type: ap.PersonType, Inbox: m, Streams: ap.ItemCollection{m}, Endpoints: &ap.Endpoints{SharedInbox: m, UploadMedia: a}},
+				&ap.OrderedCollection{Type: ap.OrderedCollectionType, OrderedItems: ap.ItemCollection{m, ap.ItemCollection{m}}, First: m},
+				&ap.Question{Type: ap.QuestionType, OneOf: m, AnyOf: ap.ItemCollection{m}, Closed: true},
+				&ap.Link{Type: ap.LinkType, Preview: m}, &ap.Relationship{Subject: m, Relationship: m})
+		}
+		for j, it := range vals {
+			var out []byte
+			var err error
+			if p := c03Recover(func() { out, err = it.(json.Marshaler).MarshalJSON() }); p != nil {
+				rep.Violate(Violation{Op: "MarshalJSON", Input: CoqItem(it), Expected: "no panic", Observed: fmt.Sprint(p), Index: 250000 + j})
+				continue
+			}
+			if err != nil {
+				rep.Violate(Violation{Op: "MarshalJSON", Input: CoqItem(it), Expected: "no error", Observed: err.Error(), Index: 250000 + j})
+			}
+			rep.Evaluations++
+			rep.Count("directed:odd-item-positions")
+			cw.Add("("+CoqItem(it)+", "+hxSum(out)+")", fmt.Sprintf("odd item position %d", j))
+			c02Native(it, out, rep, 250000+j)
 		}
 	}
 	// the public entry point (jsonld wrapper) must also produce valid JSON
